@@ -349,6 +349,18 @@ impl CustomRoller {
   }
 }
 
+/// Verification seam (hook H6): crate-visible doors onto the injected-clock
+/// constructor and write path that production reaches through `new`/`write`.
+#[cfg(excsn_fibre_verif)]
+impl CustomRoller {
+  pub(crate) fn verif_new_at(policy: RollingPolicyInternal, now: DateTime<Utc>) -> Result<Self> {
+    Self::new_at_time(policy, now, None)
+  }
+  pub(crate) fn verif_write_at(&mut self, buf: &[u8], now: DateTime<Utc>) -> std::io::Result<usize> {
+    self.write_internal(buf, now)
+  }
+}
+
 fn parse_datetime_from_str(s: &str) -> Option<NaiveDateTime> {
   // First, try to parse the full datetime format e.g., "2023-01-01_10-30-15"
   if let Ok(dt) = NaiveDateTime::parse_from_str(s, "%Y-%m-%d_%H-%M-%S") {
